@@ -111,6 +111,8 @@ def gen_scenario(rng, http=False, thorough=False, shared=False):
                 ops.insert(rng.randint(0, len(ops)), e_)
         if http:
             ops = [o for o in ops if o["op"] in HTTP_OPS] or [{"op": "size"}]
+            for _ in range(rng.choice([0, 0, 1, 3])):
+                ops.insert(rng.randint(0, len(ops)), {"op": "garbage"})      # requests the service cannot read (answered 400)
         name = "L%d" % i
         ops = ops + [dict(p) for p in gen_c17.probes(name) if (p["op"] in HTTP_OPS or not http)]
         for o in ops:
@@ -233,6 +235,9 @@ def main():
         if not isinstance(co, dict) or "clients" not in co:
             report(ck, stats, "engine %s under %d concurrent clients on different locations" % ((co or {}).get("err"), len(s["clients"])), {"case": cc, "impl": co}, "crash")
             continue
+        if s["http"] and co.get("pending") not in (None, 0):
+            report(ck, stats, "HTTP service: %s request(s) still counted as pending after every request of %d clients was answered (a pending limit would now refuse other clients)" % (
+                co.get("pending"), len(s["clients"])), {"case": cc, "pending": co.get("pending")}, "pending")
         lazy_hit = (not s["inject"]) and co.get("storages", 0) > 1
         if lazy_hit:
             stats["lazy_storage_two_instances"] += 1
